@@ -35,7 +35,7 @@ import PV.Common.Proto
 import PV.C01.Model
 import PV.C01.Bitmap
 import PV.C01.Spec
-import PV.C01.Words
+import PV.C01.Words2
 open PV.Proto PV.C01
 
 def parseItem (s : String) : Option (Nat × Nat) :=
@@ -108,16 +108,29 @@ def countRangeW (c : Container) (s e : Nat) : Nat :=
 
 def ofWords (r : Nat × List Nat) : Container := .bitmap r.1 (absW r.2)
 
+/-- `intersectBitmapRun` on words: the array branch tests every run value with `bitmapContains`,
+the bitmap branch is `wIntersectRuns`. -/
+def intersectBitmapRunW (an : Nat) (abits : List Nat) (bn : Nat) (rb : List Iv) : Container :=
+  let ws := wordsOf abits
+  if bn ≤ arrayMaxSize ∨ an ≤ arrayMaxSize then .array ((runValues rb).filter (fun v => wContains ws v))
+  else ofWords (wIntersectRuns ws rb)
+
 def intersectW (a b : Container) : Option Container :=
   if a.n = 65536 ∨ b.n = 65536 ∨ a.n = 0 ∨ b.n = 0 then intersect a b
   else match a, b with
     | .bitmap _ ba, .bitmap _ bb => some (ofWords (wAndN (wordsOf ba) (wordsOf bb)))
+    | .bitmap na ba, .run nb rb => some (intersectBitmapRunW na ba nb rb)
+    | .run na ra, .bitmap nb bb => some (intersectBitmapRunW nb bb na ra)
+    | .array xa, .bitmap _ bb => some (.array (wIntersectArray (wordsOf bb) xa))
+    | .bitmap _ ba, .array xb => some (.array (wIntersectArray (wordsOf ba) xb))
     | a, b => intersect a b
 
 def unionW (a b : Container) : Container :=
   if a.n = 65536 ∨ b.n = 65536 then union a b
   else match a, b with
     | .bitmap _ ba, .bitmap _ bb => ofWords (wOrN (wordsOf ba) (wordsOf bb))
+    | .array xa, .bitmap nb bb => ofWords (wUnionArray nb (wordsOf bb) xa)
+    | .bitmap na ba, .array xb => ofWords (wUnionArray na (wordsOf ba) xb)
     | .bitmap na ba, .run _ rb => ofWords (wUnionRunsN na (wordsOf ba) rb)
     | .run _ ra, .bitmap nb bb => ofWords (wUnionRunsN nb (wordsOf bb) ra)
     | a, b => union a b
@@ -126,6 +139,10 @@ def differenceW (a b : Container) : Option Container :=
   if a.n = 0 ∨ b.n = 65536 ∨ b.n = 0 then difference a b
   else match a, b with
     | .bitmap na ba, .run _ rb => some (ofWords (wDiffRunsN na (wordsOf ba) rb))
+    | .bitmap na ba, .array xb =>
+      let r := wDiffArray na (wordsOf ba) xb
+      some (if r.1 < arrayMaxSize then bitmapToArray r.1 (absW r.2) else ofWords r)
+    | .array xa, .bitmap _ bb => some (.array (wDifferenceArray (wordsOf bb) xa))
     | .bitmap _ ba, .bitmap _ bb =>
       let r := wAndNotN (wordsOf ba) (wordsOf bb)
       some (if r.1 < arrayMaxSize then bitmapToArray r.1 (absW r.2) else ofWords r)
@@ -148,6 +165,8 @@ def intersectionCountW (a b : Container) : Nat :=
   else match a, b with
     | .bitmap _ ba, .run _ rb => wIntersectionCountRuns (wordsOf ba) rb
     | .run _ ra, .bitmap _ bb => wIntersectionCountRuns (wordsOf bb) ra
+    | .array xa, .bitmap _ bb => wIntersectionCountArray (wordsOf bb) xa
+    | .bitmap _ ba, .array xb => wIntersectionCountArray (wordsOf ba) xb
     | a, b => intersectionCount a b
 
 def kernel (ws : List String) : Ans :=
@@ -180,7 +199,11 @@ def kernel (ws : List String) : Ans :=
     | none => bad
   | ["has", c, v] =>
     match parseContainer c, v.toNat? with
-    | some c, some v => ans2 (showBool (c.contains v)) (showBool (c.values.contains v)) "k-contains"
+    | some c, some v =>
+      let m := match c with
+        | .bitmap _ bits => wContains (wordsOf bits) v
+        | c => c.contains v
+      ans2 (showBool m) (showBool (c.values.contains v)) "k-contains"
     | _, _ => bad
   | [op, a, b] =>
     match parseContainer a, parseContainer b with
@@ -197,7 +220,11 @@ def kernel (ws : List String) : Ans :=
     | some c =>
       match op with
       | "shift" =>
-        let r := shift c
+        let r : Option Container × Bool := match c with
+          | .bitmap n bits =>
+            if n = 0 then shift c
+            else let w := wShift n (wordsOf bits); (some (.bitmap w.1 (absW w.2.1)), w.2.2)
+          | c => shift c
         let sv := Spec.shift 65536 c.values
         ans2 s!"{showC r.1} carry={showBool r.2}" s!"{showSet sv} carry={showBool (c.values.contains 65535)}" "k-shift"
       | "flip" => ans2 (showC (some (flipW c))) (showSet (Spec.compl16 c.values)) "k-flip"
